@@ -18,6 +18,7 @@ pub mod c04;
 pub mod c05;
 pub mod c06;
 pub mod c07;
+pub mod c08;
 pub mod c09;
 pub mod c10;
 pub mod c12;
@@ -25,10 +26,11 @@ pub mod c14;
 pub mod c15;
 pub mod c16;
 pub mod c17;
+pub mod c20;
 
 use runner::{Run, Sub};
 
-pub const PROPS: &[&str] = &["C01", "C02", "C03", "C04", "C05", "C06", "C07", "C09", "C10", "C12", "C14", "C15", "C16", "C17"];
+pub const PROPS: &[&str] = &["C01", "C02", "C03", "C04", "C05", "C06", "C07", "C08", "C09", "C10", "C12", "C14", "C15", "C16", "C17", "C20"];
 
 pub fn subs_of(prop: &str) -> Option<Vec<Sub>> {
     match prop {
@@ -39,6 +41,7 @@ pub fn subs_of(prop: &str) -> Option<Vec<Sub>> {
         "C05" => Some(c05::subs()),
         "C06" => Some(c06::subs()),
         "C07" => Some(c07::subs()),
+        "C08" => Some(c08::subs()),
         "C09" => Some(c09::subs()),
         "C10" => Some(c10::subs()),
         "C12" => Some(c12::subs()),
@@ -46,6 +49,7 @@ pub fn subs_of(prop: &str) -> Option<Vec<Sub>> {
         "C15" => Some(c15::subs()),
         "C16" => Some(c16::subs()),
         "C17" => Some(c17::subs()),
+        "C20" => Some(c20::subs()),
         _ => None,
     }
 }
@@ -59,6 +63,7 @@ pub fn run_prop(run: &Run) -> bool {
         "C05" => c05::run(run),
         "C06" => c06::run(run),
         "C07" => c07::run(run),
+        "C08" => c08::run(run),
         "C09" => c09::run(run),
         "C10" => c10::run(run),
         "C12" => c12::run(run),
@@ -66,6 +71,7 @@ pub fn run_prop(run: &Run) -> bool {
         "C15" => c15::run(run),
         "C16" => c16::run(run),
         "C17" => c17::run(run),
+        "C20" => c20::run(run),
         _ => return false,
     }
     true
@@ -76,6 +82,7 @@ pub fn child_main(args: &[String]) -> i32 {
     match args.first().map(|s| s.as_str()) {
         Some("c05") => c05::child(&args[1..]),
         Some("c10") => c10::child(&args[1..]),
+        Some("c20") => c20::child(&args[1..]),
         _ => 2,
     }
 }
